@@ -180,5 +180,23 @@ pub fn run_fill_px(l: &[i128]) -> Vec<i128> {
             }
         }
     }
-    vec![checked, in_band, bad, first[0], first[1], first[2], first[3], bad_complex]
+    // the whole pixmap, not only the window: nothing is painted outside the path's bounding box (plus the band)
+    let (mut stray, mut sx, mut sy) = (0i128, -1i128, -1i128);
+    let bb = tp.bounds();
+    let m = band as f32 + 1.0;
+    for y in 0..h {
+        for x in 0..w {
+            if alpha[(y * w + x) as usize] != 0 {
+                let (cx, cy) = (x as f32 + 0.5, y as f32 + 0.5);
+                if cx < bb.left() - m || cx > bb.right() + m || cy < bb.top() - m || cy > bb.bottom() + m {
+                    stray += 1;
+                    if sx < 0 {
+                        sx = x as i128;
+                        sy = y as i128;
+                    }
+                }
+            }
+        }
+    }
+    vec![checked, in_band, bad, first[0], first[1], first[2], first[3], bad_complex, stray, sx, sy]
 }
